@@ -45,8 +45,10 @@ def cap_cfgs():
     c.append(cap("DISCARD", 16, 48, **N, **{"_tier": "thorough"}))   # same path as ZEROOUT
     c.append(cap("WRITE", 16, 16, cnt=1, offmode=1, **N, **{"_tier": "thorough"}))   # quick: the write_byte query below covers OFFMODE=1
     c.append(cap("WRITE", 16, 16, cnt=1, BEYOND_END=None, **N))       # fixed by 5d7d5931
-    c.append(cap("WRITE_BYTE", 16, 20, offmode=1, **N))               # fixed by b20ebc92
-    c.append(cap("WRITE", 16, 16, cnt=1, offmode=2, **N))             # unaligned offset, no carry
+    c.append(cap("WRITE_BYTE", 16, 20, offmode=1, OFFBITS=16, **N))               # fixed by b20ebc92 (offset < 2^16; 2^40: thorough)
+    c.append(cap("WRITE", 16, 16, cnt=1, offmode=2, OFFBITS=16, **N))             # unaligned offset, no carry
+    c.append(cap("WRITE_BYTE", 16, 20, offmode=1, **N, **T))
+    c.append(cap("WRITE", 16, 16, cnt=1, offmode=2, **N, **T))
     # KNOWN FINDING (fails on the current tree): unaligned offset, carry case only
     c.append(cap("WRITE", 16, 16, cnt=1, offmode=2, OFF_CARRY=None, **N))
     # extent limit (hook: -DE2FSPROGS_VERIF_UNDO_MAX_EXTENT_BLOCKS=<n> scales E2UNDO_MAX_EXTENT_BLOCKS): the current key holds
@@ -88,6 +90,7 @@ def reopen_cfgs():
     for dmg in (1, 2, 3, 4, 5, 6):
         c.append(dict(H4, NK=1, FSBS=16, DAMAGE=dmg, _unwindset=uw(1)))
     c.append(dict(H4, NK=1, FSBS=16, DAMAGE=7, _unwindset=uw(1), _tier="thorough"))
+    c.append(dict(H4, NK=1, FSBS=16, DAMAGE=8, _unwindset=uw(1), _tier="thorough"))
     # NOT registered (would alarm on a pre-state no run reaches): re-open with a non-zero fs offset (OFFQ=2, and OFFQ=1 with a
     # follow-up write).  With an offset the rebuilt block map is fs-relative while undo_write_tdb tests absolute ids, so a
     # follow-up write would save a recorded block again / skip an unrecorded one -- but undo_open() runs check_filesystem()
